@@ -413,7 +413,7 @@ fn subset_events(
             }
         } else if let Some(t) = Tables::from_sfnt(&bytes, 0) {
             if let (Some(g), Some(long)) = (t.get("glyf"), t.loca_long()) {
-                if (131066..=131076).contains(&g.len()) {
+                if (131000..=131200).contains(&g.len()) {
                     rec.bump(&format!("measured:glyf:{}:{}", g.len(), if long { "long-loca" } else { "short-loca" }), 1);
                 }
                 if n_out >= 65535 {
@@ -616,6 +616,7 @@ fn replay(cases: &str, mism_path: &str, trace_path: &str, every: usize) {
     let mut rec = Rec { w: NdWriter::create(trace_path), i: 0, tally: BTreeMap::new() };
     let f = std::fs::File::open(cases).unwrap_or_else(|e| panic!("open {}: {}", cases, e));
     let (mut n_cases, mut n_mism, mut literal, mut failed, mut traced) = (0usize, 0usize, 0usize, 0usize, 0usize);
+    let mut refused_unsorted = 0usize;
     // families of component records in the synthesized source fonts (composite glyphs counted)
     let mut gen_feat: BTreeMap<&'static str, u64> = BTreeMap::new();
     for line in BufReader::new(f).lines() {
@@ -699,6 +700,12 @@ fn replay(cases: &str, mism_path: &str, trace_path: &str, every: usize) {
         if obs.get("fail").is_some() {
             failed += 1;
         }
+        // OpenType wants the table directory sorted by tag: an implementation may refuse a source whose directory is
+        // not (a refused subset is outside "a successful subset"); a panic or a wrong output still counts
+        if rp["dir"] == "unsorted" && matches!(&result, Outcome::Returned(Err(_))) {
+            refused_unsorted += 1;
+            continue;
+        }
         let conforms = obs.get("fail").is_none() && obs["n"] == exp["n"] && obs["head"] == exp["head"] && obs["tail"] == exp["tail"];
         if conforms && obs["order"] == exp["order"] && obs["comps"] == exp["comps"] {
             literal += 1;
@@ -746,7 +753,7 @@ fn replay(cases: &str, mism_path: &str, trace_path: &str, every: usize) {
     rec.w.finish();
     println!(
         "{}",
-        json!({"cases": n_cases, "mismatches": n_mism, "literal_order_matches": literal, "subset_failed": failed, "traced_cases": traced,
+        json!({"cases": n_cases, "mismatches": n_mism, "literal_order_matches": literal, "subset_failed": failed, "refused_unsorted_directory": refused_unsorted, "traced_cases": traced,
                "events": events, "source_composite_families": gen_feat, "tally": rec.tally})
     );
 }
